@@ -46,7 +46,7 @@ def units(tier):
                                                     'GeneralString', 'BMPString', 'UniversalString')]
     su = space.make_unit('special-strings', tops)
     su.extra['values'] = SPECIAL_STRINGS + ['"', '""', 'a""b', '"a"', '', 'x"']
-    return [su] + us
+    return [su] + space.special_string_units(SPECIAL_STRINGS + ['"', '""', 'a""b', '"a"', '', 'x"']) + us
 
 
 def has_enum(t, env):
@@ -107,7 +107,7 @@ def work(unit):
     for i, (name, term, lab) in enumerate(unit.tops):
         res.count('types')
         res.states.add(hash((unit.tags, unit.ext_implied, term)))
-        values = unit.extra.get('values') or dom(term, unit.env)
+        values = space.values_of(unit, term)
         if not values:
             continue
         res.count('values', len(values))
@@ -123,7 +123,7 @@ def work(unit):
             spec, tname = c
             texts = {}
             for vi, v in enumerate(values):
-                indents = INDENTS if vi < 6 else (None,)
+                indents = INDENTS if vi < 6 or unit.extra.get('all_indents') else (None,)
                 r = check_value(spec, tname, term, unit.env, v, numeric, res, indents, texts)
                 if r is not None:
                     kind, detail, enc = r
